@@ -72,6 +72,19 @@ def grid_requests(pairs_pool, full):
             reqs.append(ctx_line("c", [("p", "v", a)]))
             reqs.append(exec_line("c", "p %s" % op))
             meta.append(("postfix", op, a, None))
+    # two unary operators on one operand (the same one twice included): each application is type-checked
+    for o1 in ["-", "+", "!", "not"]:
+        for o2 in ["-", "+", "!", "not"]:
+            for a in POOL:
+                reqs.append(ctx_line("c", [("p", "v", a)]))
+                reqs.append(exec_line("c", "%s %s p" % (o1, o2)))
+                meta.append(("prefix2", (o1, o2), a, None))
+    for o1 in ["-", "!"]:
+        for o2 in ["++", "--"]:
+            for a in POOL:
+                reqs.append(ctx_line("c", [("p", "v", a)]))
+                reqs.append(exec_line("c", "%s p %s %s" % (o1, o2, o2)))
+                meta.append(("prepost", (o1, o2), a, None))
     small = [n(1), n(5, 1), n(3, 0, True), n(int(MAXD)), n(0), s("a"), NONE, n(2, 1)]
     for fn in ["min", "max", "sum", "mul"]:
         for k in range(0, 4):
@@ -91,6 +104,14 @@ def spec_expect(m):
         return S.prefix(op, a)
     if kind_ == "postfix":
         return S.postfix(op, a)
+    if kind_ == "prefix2":
+        inner = S.prefix(op[1], a)
+        return inner if inner is None or inner == S.ERR else S.prefix(op[0], inner)
+    if kind_ == "prepost":
+        v = S.postfix(op[1], a)
+        if v is not None and v != S.ERR:
+            v = S.postfix(op[1], v)
+        return v if v is None or v == S.ERR else S.prefix(op[0], v)
     return S.function(op, a)
 
 
@@ -394,7 +415,10 @@ def check_C06(c):
             c.violation("implementation-vs-property", "a name that was never bound does not read as None", {"input_text": text, "expected": exp or "error", "requests": ureqs[:1] + ureqs[3 * k + 1:3 * k + 4], "implementation": ui[3 * k + 2]})
     # fixed corpus with expectations stated by the property
     corpus = [("", "(none)"), ("x = 1", "(none)"), ("unbound", "(none)"), ("x = 1; x", "(n 0 1 0)"), ("x = 1; y = x + 1; x = y * 2; x", "(n 0 4 0)"),
-              ("a = b = 3; [a, b]", "(l (none) (n 0 3 0))"), ("1; 2; 3", "(n 0 3 0)"), ("x = 1; x = 's'; x", "(s 73)")]
+              ("a = b = 3; [a, b]", "(l (none) (n 0 3 0))"), ("1; 2; 3", "(n 0 3 0)"), ("x = 1; x = 's'; x", "(s 73)"),
+              # the `;` between statements may be omitted: every statement still runs, the value is the last one's
+              ("x = 1\ny = x + 1\ny += 10;\nz = y\n[x, y, z]", "(l (n 0 1 0) (n 0 12 0) (n 0 12 0))"), ("a = 2; a *= 3 b = a; b", "(n 0 6 0)"), ("1 2 3", "(n 0 3 0)"),
+              ("a = 5; a = b = 1; [a, b]", "(l (none) (n 0 1 0))"), ("x = 3; x = nothing; x", "(none)")]
     cr = []
     for p, _ in corpus:
         cr.append("CTX\tc\t()")
@@ -559,7 +583,13 @@ def check_C07(c):
              ("{A(): B(), A(): B2()}", [L("A"), L("B"), L("A"), L("B2")], "OK"), ("{1: A(), 2: B(), 1: A2()}", [L("A"), L("B"), L("A2")], "OK"),
              ("{'k': A(), 'k': A()}", [L("A"), L("A")], "OK"), ("[A(), A(), A()]", [L("A"), L("A"), L("A")], "OK"), ("A() + A() * A()", [L("A"), L("A"), L("A")], "OK"),
              ("B(A(), A())", [L("A"), L("A"), L("B", one, one)], "OK"), ("x = A; y = A; [A, A]", [L("A"), L("A"), L("A"), L("A")], "OK"),
-             ("true ? A() : A(); false ? A() : A()", [L("A"), L("A")], "OK")]
+             ("true ? A() : A(); false ? A() : A()", [L("A"), L("A")], "OK"),
+             # a statement without any name or call is evaluated like every other: its failure stops the program
+             ("1 / 0; A(); B()", [], "ERR"), ("A(); 1 + true; B()", [L("A")], "ERR"), ("A(); [1, 1 << 64]; B()", [L("A")], "ERR"),
+             ("A(); {1: 5 % 0}; B()", [L("A")], "ERR"), ("A(); true ? - 's' : 2; B()", [L("A")], "ERR"), ("A(); 1 + 2; B()", [L("A"), L("B")], "OK"),
+             # operands of a right-nested chain of one operator run left to right like any others
+             ("A() - (B() - A2())", [L("A"), L("B"), L("A2")], "OK"), ("A() - (B() - (A2() - B2()))", [L("A"), L("B"), L("A2"), L("B2")], "OK"),
+             ("x = y = A() + (B() + A2())", [L("A"), L("B"), L("A2")], "OK")]
     treqs = []
     for text, log, oc_ in templ:
         binds = [(nm, "f", ["log", hx(nm), ["const", one]]) for nm in ("A", "A2", "B", "B2")]
@@ -652,6 +682,33 @@ def check_C15(c):
         if not (oc[0] == ("ERR" if kind_ == "err" else "PANIC") and last == hx("shadow") and si[off + 4] == "OK (n 0 1 0)" and "(n " not in si[off + 5]):
             c.violation("implementation-vs-property", "a failing/panicking context function shadowing global `%s` was not contained (%s)" % (nm, kind_),
                         {"requests": sreqs[off: off + 6], "implementation": si[off: off + 6], "input_text": prog})
+    # a handler that fails the way a real one does — with the engine's "should be a number" error — on an operand that is a
+    # numeric *string*: the failure is final, the handler is not tried again on a converted operand, nothing later runs
+    nreqs, nmeta = [], []
+    for kind_, prog, tag in [("prefix", "w = 1; x = pp '7'; w = 2", "pp"), ("postfix", "w = 1; x = '7' qq ; w = 2", "qq"), ("infix", "w = 1; x = ['7' ii 1, hh()]; w = 2", "ii"),
+                             ("infix", "w = 1; x = 1 ii ' 2.50 '; w = 2", "ii"), ("setter", "w = 1; t = 1; t ss '7'; w = 2", "ss"), ("global", "w = 1; x = gg('-1'); w = 2", "gg"),
+                             ("ctxcall", "w = 1; x = fc('7') + hh(); w = 2", "fc")]:
+        sc_ = ["log", hx(tag), ["errnum"]]
+        blk = ["REG\tfn\t%s\t0\tcalc\tleft\t%s" % (hx("gg"), sexp_str(sc_ if tag == "gg" else ["const", n(3)])),
+               "REG\tfn\t%s\t0\tcalc\tleft\t%s" % (hx("hh"), sexp_str(["log", hx("hh"), ["const", n(5)]])),
+               "REG\tprefix\t%s\t0\tcalc\tleft\t%s" % (hx("pp"), sexp_str(sc_ if tag == "pp" else ["arg", "0"])),
+               "REG\tinfix\t%s\t105\tcalc\tleft\t%s" % (hx("ii"), sexp_str(sc_ if tag == "ii" else ["arg", "0"])),
+               "REG\tpostfix\t%s\t0\tcalc\tleft\t%s" % (hx("qq"), sexp_str(sc_ if tag == "qq" else ["arg", "0"])),
+               "REG\tinfix\t%s\t25\tsetter\tright\t%s" % (hx("ss"), sexp_str(sc_ if tag == "ss" else ["arg", "1"])),
+               ctx_line("c", [("fc", "f", sc_ if tag == "fc" else ["const", n(1)])]), exec_line("c", prog), "GETVAR\tc\t" + hx("w"), "GETVAR\tc\t" + hx("t")]
+        nmeta.append((len(nreqs), kind_, tag, prog))
+        nreqs += blk
+    ni, nm = both(nreqs, timeout=600)
+    c.add_stream(Stream("handlers failing with the engine's number error on numeric-string operands", nreqs, ni, nm))
+    for off, kind_, tag, prog in nmeta:
+        line = ni[off + 7]
+        oc = outcome_of(line)
+        logf = line.split("\t")[3] if len(line.split("\t")) > 3 else ""
+        entries = sexp_parse(logf) if logf not in ("", "()") else []
+        calls = [e_[0] for e_ in (entries or [])]
+        if not (oc[0] == "ERR" and calls.count(hx(tag)) == 1 and calls[-1] == hx(tag) and ni[off + 8] == "OK (n 0 1 0)" and "(n 0 7 0)" not in ni[off + 9]):
+            c.violation("implementation-vs-property", "a %s handler that failed was invoked again / the evaluation went on" % kind_,
+                        {"requests": nreqs[off: off + 10], "implementation": ni[off: off + 10], "input_text": prog})
     return c.finish(trusted=TB_COMMON + ["std::sync::Mutex poisoning semantics as documented"],
                     rule="programs invoking seven handler kinds (context function by call / by bare name, global function, prefix, infix, postfix operator, assignment-type infix operator); Err and panic injected into each kind in turn; follow-ups: get_variable and a second exec on the same context, exec on another context; oracle: outcome Err/unwind, call log ends at the faulty handler, follow-ups succeed with the values of the stopped evaluation")
 
@@ -769,6 +826,9 @@ def check_C08(c):
          exec_line("c", "b = 1; b <<= 2; b"), exec_line("c", "1 << 2"), exec_line("c", "- 4"),
          "REG\tinfix\t%s\t20\tsetter\tright\t%s" % (hx("+="), sexp_str(const(5))), exec_line("c", "d = 1; d += 2; d"), exec_line("c", "1 + 2"),
          exec_line("c", "e = 1; e *= 3; e")],
+        # an override of a built-in stays in force through failing calls of unknown names, failing parses and evaluations
+        [reg("fn", "min", const(77)), reg("fn", "sum", const(78)), ctx_line("c", [("nosuch", "v", n(5))]), exec_line("c", "min(3, 1, 2)"), exec_line("c", "nosuch(1)"),
+         exec_line("c", "alsonot()"), exec_line("c", "1 +"), exec_line("c", "1 / 0"), exec_line("c", "min(3, 1, 2)"), exec_line("c", "sum(1, 2)"), exec_line("c", "max(1, 2)")],
     ]
     EXPECT = {0: {2: "(n 0 1 0)", 4: "(n 0 2 0)", 7: "(n 0 8 0)"}, 1: {2: "(n 1 7 0)"}, 2: {1: "(n 0 2 0)", 3: "(n 1 7 0)"},
               3: {2: "(n 0 42 0)", 3: "(n 0 1 0)"}, 4: {2: "(n 0 42 0)"}, 5: {2: "(n 0 42 0)", 4: "(n 1 1 0)"},
@@ -776,6 +836,7 @@ def check_C08(c):
               8: {3: "(n 0 8 0)"}, 9: {4: "(n 0 2 0)"},
               10: {4: "(n 0 2 0)", 5: "(n 0 42 0)"}, 11: {2: "(n 0 200 0)", 3: "(n 0 100 0)", 4: "(n 0 100 0)"},
               12: {3: "(n 0 77 0)", 6: "(n 0 78 0)", 9: "(n 0 79 0)", 12: "(n 0 80 0)", 14: "(n 0 81 0)"},
+              14: {3: "(n 0 77 0)", 4: "ERR", 5: "ERR", 7: "ERR", 8: "(n 0 77 0)", 9: "(n 0 78 0)", 10: "(n 0 2 0)"},
               13: {3: "(n 0 13 0)", 4: "(n 1 7 0)", 5: "(n 0 4 0)", 6: "(n 0 9 0)", 7: "(n 1 4 0)", 9: "(n 0 5 0)", 10: "(n 0 3 0)", 11: "(n 0 3 0)"}}
     for hi, h in enumerate(H):
         impl, model = both(h)
@@ -915,6 +976,34 @@ def check_C09(c):
             c.violation("implementation-vs-property", "decimal arithmetic does not keep the operands' places (mantissa/scale of the result)",
                         {"requests": reqs2[2 * i:2 * i + 2], "expected": "(n %d %d %d)" % (1 if num < 0 else 0, abs(num), sc), "implementation": impl2[2 * i + 1]})
     c.extra["results_checked_for_scale"] = scale_checked
+    # the same with the operands written as *literals* in the source, in particular numerically equal literals spelled with
+    # different trailing zeros (`1.10 * 1.1`): each operand keeps its own places
+    spell = ["1.10", "1.1", "2.0", "2", "0.50", "0.5", "100", "100.00", "3", "3.000", "7.25", "7.250", "12.5", "0.1", "0.10", "1", "1.0"]
+    def lit_ms(t_):
+        return (int(t_.replace(".", "")), len(t_.split(".")[1]) if "." in t_ else 0)
+    lreq, lmeta = ["CTX\tc\t()"], []
+    for a_ in spell:
+        for b_ in spell:
+            for op in ("+", "-", "*"):
+                for form in ("%s %s %s", "(%s + 1 - 1) %s (%s + 1 - 1)"):
+                    lreq.append(exec_line("c", form % (a_, op, b_)))
+                    lmeta.append((a_, op, b_))
+    li, lm = both(lreq, timeout=600)
+    c.add_stream(Stream("literal operands, equal values with different trailing zeros", lreq, li, lm))
+    for k_, (a_, op, b_) in enumerate(lmeta):
+        (na, sa), (nb, sb) = lit_ms(a_), lit_ms(b_)
+        if op == "*":
+            sc, num = sa + sb, na * nb
+        else:
+            sc = max(sa, sb)
+            num = na * 10 ** (sc - sa) + (nb if op == "+" else -nb) * 10 ** (sc - sb)
+        f1 = li[k_ + 1].split("\t")
+        exp = "(n %d %d %d)" % (1 if num < 0 else 0, abs(num), sc)
+        if num == 0:
+            continue
+        if len(f1) < 2 or f1[1] != "OK " + exp:
+            c.violation("implementation-vs-property", "decimal arithmetic on literals does not keep each operand's places (mantissa/scale of the result)",
+                        {"input_text": unhx(lreq[k_ + 1].split("\t")[2]), "expected": exp, "implementation": li[k_ + 1]})
     # classic binary-float traps through the text path
     traps = [("0.1 + 0.2 == 0.3", "(b 1)"), ("1.10 == 1.1", "(b 1)"), ("0.3 - 0.1 == 0.2", "(b 1)"), ("1.0 == 1", "(b 1)"), ("0.1 * 3 == 0.3", "(b 1)"),
              ("1.10", "(n 0 110 2)"), ("0.1 + 0.2", "(n 0 3 1)"), ("1.5 * 2 == 3", "(b 1)"), ("2.50 < 2.5", "(b 0)"), ("2.50 <= 2.5", "(b 1)"),
@@ -1004,11 +1093,13 @@ def check_C17(c):
             c.violation("implementation-vs-property", "float conversion did not return", {"request": r, "implementation": a})
             continue
         x = struct.unpack(">d", bytes.fromhex(bits))[0] if ty == "f64" else struct.unpack(">f", bytes.fromhex(bits))[0]
-        if f[2] == "faithful":
-            float_stats["faithful"] += 1
-        elif x == x and abs(x) < 2.0 ** 96 and x == math.floor(x):
+        pv = sexp_parse(f[1])
+        if x == x and abs(x) < 2.0 ** 96 and x == math.floor(x) and pv and pv[0] == "n" and S.num_val(pv) != int(x):
+            # (exactness judged here on the decimal itself — the harness's `faithful` compares through f64 and would not see 2^63 - 1)
             c.violation("implementation-vs-property", "an integer-valued float within the decimal range converts to a different number",
                         {"request": r, "value": repr(x), "exact": str(int(x)), "implementation": a})
+        elif f[2] == "faithful":
+            float_stats["faithful"] += 1
         elif f[3] in ("nonfinite", "huge") or abs(x) < 1e-28:
             float_stats["unfaithful_in_finding_zone"] += 1
             wide_hit = True
